@@ -8,7 +8,20 @@
 // loop `for has := s != nil; has; has = s.Next() { s.Value() }`, once consumed by ForEach with a
 // callback that fails at visit index errAt.  Result line:
 //
-//	<drained>|<visited>|<err>|src=<ok|MODIFIED>
+//	<drained>|<visited>|<err>|src=<ok|MODIFIED>|ty=<ok|T:...>|calls=<ok|extra:...|unchecked>|order=<T,T,..>
+//
+// The first three fields are the run at element type int (the part the Lean model is compared with).
+//
+// ty: the builders are generic in the element type (types.go): the SAME expression is evaluated, in the
+// same process, at every other typing of the mode (values injected from int by a codec, predicates p.prj,
+// mappings inj.m.prj), the order of the typings (int included) chosen by a hash of the case line, so that
+// whatever one instantiation leaves behind in the package meets the next one.  The projected result of each
+// typing must equal the int result; the first one that does not is reported as `ty=<T>:<drained>/<visited>/<err>`.
+//
+// calls: every user callback (predicate, mapping, join/ToSeq/FromSeq body) logs (callback node, environment,
+// arguments).  An EAGER reference evaluator over int slices (ref.go) with the same callbacks is run first and
+// gives the set of calls list semantics makes; the real (lazy) combinators may make any subset of them, any
+// number of times, but no other: the first other call is reported as `calls=extra:<op>.<fn>#<node>[env](args)@<T>` (T: the typing of the run that made it).
 //
 // Panics are canonicalised to panic:nil / panic:index / panic:other, a drain that does not stop
 // after 5000 elements to `runaway`.
@@ -18,6 +31,7 @@ import (
 	"bufio"
 	"fmt"
 	"os"
+	"runtime"
 	"strconv"
 	"strings"
 
@@ -136,6 +150,18 @@ type node struct {
 	fn    string // predicate / mapping name
 	terms []term
 	kids  []*node
+	id    int // preorder number: names the callback of this node in the call log
+}
+
+func number(n *node, next *int) {
+	if n == nil {
+		return
+	}
+	n.id = *next
+	*next++
+	for _, k := range n.kids {
+		number(k, next)
+	}
 }
 
 type parser struct {
@@ -168,36 +194,41 @@ func (p *parser) terms(n int) []term {
 
 // ---------------------------------------------------------------- source-slice tracking
 
-type tracked struct{ live, orig []int }
-
-var sources []tracked
+// one closure per source slice built for the current case: true while the whole backing array still
+// holds (the images of) the values it was filled with
+var sourceChecks []func() bool
 
 // newSlice builds the source slice as a WINDOW of a larger backing array (guard cells in front, spare
 // capacity behind, so cap > len): a combinator that appends to or writes around a source slice is
 // caught by comparing the whole backing array afterwards ("source slices are never modified").
-func newSlice(ts []term, e env) []int {
+func newSlice[E any](c codec[E], ts []term, e env) []E {
 	const guard, spare = 2, 4
-	backing := make([]int, guard+len(ts)+spare)
-	for i := range backing {
-		backing[i] = -7770 - i
+	orig := make([]int, guard+len(ts)+spare)
+	for i := range orig {
+		orig[i] = -7770 - i
 	}
 	for i, t := range ts {
-		backing[guard+i] = t.eval(e)
+		orig[guard+i] = t.eval(e)
 	}
-	orig := append([]int(nil), backing...)
-	sources = append(sources, tracked{backing, orig})
+	backing := make([]E, len(orig))
+	for i := range backing {
+		backing[i] = c.inj(orig[i])
+	}
+	sourceChecks = append(sourceChecks, func() bool {
+		for i := range backing {
+			if c.prj(backing[i]) != orig[i] {
+				return false
+			}
+		}
+		return true
+	})
 	return backing[guard : guard+len(ts)]
 }
 
 func sourcesIntact() bool {
-	for _, s := range sources {
-		if len(s.live) != len(s.orig) {
+	for _, ok := range sourceChecks {
+		if !ok() {
 			return false
-		}
-		for i := range s.live {
-			if s.live[i] != s.orig[i] {
-				return false
-			}
 		}
 	}
 	return true
@@ -244,19 +275,22 @@ var allowPair bool
 
 type badFn struct{ name string }
 
-func buildSeq(n *node, e env) seq.Seq[int] {
+// buildSeq builds the expression with the real combinators at element type E.  Callbacks work on the
+// projection of their argument (predicates p.prj, mappings inj.m.prj) and log it (ref.go).
+func (ty *types[K, V, E]) buildSeq(n *node, e env) seq.Seq[E] {
+	c := ty.e
 	switch n.op {
 	case "F":
-		return seq.From(n.terms[0].eval(e))
+		return seq.From(c.inj(n.terms[0].eval(e)))
 	case "S":
-		return seq.FromSlice(newSlice(n.terms, e))
+		return seq.FromSlice(newSlice(c, n.terms, e))
 	case "TW", "DW", "FI":
 		f0 := pred1(n.fn, e)
 		if f0 == nil {
 			panic(badFn{n.fn})
 		}
-		f := func(v int) bool { tick(); return f0(v) }
-		s := buildSeq(n.kids[0], e)
+		f := func(v E) bool { x := c.prj(v); called(n, e, 1, x, 0); return f0(x) }
+		s := ty.buildSeq(n.kids[0], e)
 		switch n.op {
 		case "TW":
 			return seq.TakeWhile(s, f)
@@ -269,16 +303,20 @@ func buildSeq(n *node, e env) seq.Seq[int] {
 		if f0 == nil {
 			panic(badFn{n.fn})
 		}
-		return seq.Map(buildSeq(n.kids[0], e), func(v int) int { tick(); return f0(v) })
+		return seq.Map(ty.buildSeq(n.kids[0], e), func(v E) E { x := c.prj(v); called(n, e, 1, x, 0); return c.inj(f0(x)) })
 	case "PL":
-		l := buildSeq(n.kids[0], e)
-		r := buildSeq(n.kids[1], e)
+		l := ty.buildSeq(n.kids[0], e)
+		r := ty.buildSeq(n.kids[1], e)
 		return seq.Plus(l, r)
 	case "JN":
 		body := n.kids[1]
-		return seq.Join(buildSeq(n.kids[0], e), func(x int) seq.Seq[int] { tick(); return buildSeq(body, e.push(x)) })
+		return seq.Join(ty.buildSeq(n.kids[0], e), func(v E) seq.Seq[E] {
+			x := c.prj(v)
+			called(n, e, 1, x, 0)
+			return ty.buildSeq(body, e.push(x))
+		})
 	case "TS":
-		return buildToSeq(n, e)
+		return ty.buildToSeq(n, e)
 	}
 	panic(badFn{n.op})
 }
@@ -333,17 +371,17 @@ type visitErr struct{ idx int }
 
 func (v *visitErr) Error() string { return "E" + strconv.Itoa(v.idx) }
 
-func drainSeq(n *node) (out string) {
+func (ty *types[K, V, E]) drainSeq(n *node) (out string) {
 	defer func() {
 		if r := recover(); r != nil {
 			out = classify(r)
 		}
 	}()
 	ticks = 0
-	s := buildSeq(n, nil)
+	s := ty.buildSeq(n, nil)
 	var got []int
 	for has := s != nil; has; has = s.Next() {
-		got = append(got, s.Value())
+		got = append(got, ty.e.prj(s.Value()))
 		if len(got) > runawayLimit {
 			return "runaway"
 		}
@@ -351,19 +389,19 @@ func drainSeq(n *node) (out string) {
 	return ints(got)
 }
 
-func forEachSeq(n *node, errAt int) (out string) {
+func (ty *types[K, V, E]) forEachSeq(n *node, errAt int) (out string) {
 	defer func() {
 		if r := recover(); r != nil {
 			out = classify(r)
 		}
 	}()
 	ticks = 0
-	s := buildSeq(n, nil)
+	s := ty.buildSeq(n, nil)
 	var log []int
 	var sent *visitErr
-	err := seq.ForEach(s, func(v int) error {
+	err := seq.ForEach(s, func(v E) error {
 		idx := len(log)
-		log = append(log, v)
+		log = append(log, ty.e.prj(v))
 		if idx == errAt {
 			sent = &visitErr{idx}
 			return sent
@@ -386,6 +424,42 @@ func forEachSeq(n *node, errAt int) (out string) {
 	return ints(log) + "|" + es
 }
 
+// runCase evaluates one parsed case at every typing of the mode (typings[0] is the all-int one) and
+// assembles the result line described at the top of this file.
+func runCase(line string, n *node, errAt int, pairKind bool, typings []typing) string {
+	next := 0
+	number(n, &next)
+	sourceChecks = sourceChecks[:0]
+	if bad := reference(n, pairKind); bad != "" {
+		return bad
+	}
+	order := permutation(len(typings), hashLine(line))
+	res := make([]string, len(typings))
+	names := make([]string, len(typings))
+	for pos, i := range order {
+		t := typings[i]
+		curTyping = t.label()
+		names[pos] = t.label()
+		if pairKind {
+			res[i] = t.drainPair(n) + "|" + t.forEachPair(n, errAt)
+		} else {
+			res[i] = t.drainSeq(n) + "|" + t.forEachSeq(n, errAt)
+		}
+	}
+	tyField := "ok"
+	for i := 1; i < len(typings); i++ {
+		if res[i] != res[0] {
+			tyField = typings[i].label() + ":" + strings.ReplaceAll(res[i], "|", "/")
+			break
+		}
+	}
+	src := "ok"
+	if !sourcesIntact() {
+		src = "MODIFIED"
+	}
+	return res[0] + "|src=" + src + "|ty=" + tyField + "|calls=" + callsVerdict() + "|order=" + strings.Join(names, ",")
+}
+
 func runC14(line string) string {
 	toks := strings.Fields(line)
 	if len(toks) < 2 {
@@ -397,17 +471,13 @@ func runC14(line string) string {
 	if err != nil || p.bad || p.pos != len(p.toks) {
 		return "bad-case"
 	}
-	sources = sources[:0]
-	d := drainSeq(n)
-	f := forEachSeq(n, errAt)
-	src := "ok"
-	if !sourcesIntact() {
-		src = "MODIFIED"
-	}
-	return d + "|" + f + "|src=" + src
+	return runCase(line, n, errAt, false, typingsC14)
 }
 
 func main() {
+	// one P: the harness is sequential, and whatever per-P state the library keeps (a sync.Pool, say) is then
+	// met again by the next evaluation instead of depending on where the scheduler puts the goroutine
+	runtime.GOMAXPROCS(1)
 	mode := "C14"
 	if len(os.Args) > 1 {
 		mode = os.Args[1]
